@@ -154,25 +154,24 @@ class LCDDocFilter(DocumentFilter):
       # cleanup styles
       style_filter.process_element(region)
 
+      # compute extent, which the computation of the position depends on
+      if region.get_style(StyleProperties.Extent) is None:
+        region.set_style(StyleProperties.Extent, initial_extent if initial_extent is not None \
+                         else StyleProperties.Extent.make_initial_value() )
+
+      StyleProcessors.Extent.compute(None, region)
+
       # compute origin
-      if (region.get_style(StyleProperties.Origin)) is not None:
-        StyleProcessors.Origin.compute(None, region)
-
-      if (region.get_style(StyleProperties.Position)) is not None:
-        StyleProcessors.Position.compute(None, region)
-        region.set_style(StyleProperties.Position, None)
-
       if region.get_style(StyleProperties.Origin) is None:
         region.set_style(StyleProperties.Origin, initial_origin if initial_origin is not None \
                          else StyleProperties.Origin.make_initial_value())
 
-      # compute extent
-      if (region.get_style(StyleProperties.Extent)) is not None:
-        StyleProcessors.Extent.compute(None, region)
+      StyleProcessors.Origin.compute(None, region)
 
-      if region.get_style(StyleProperties.Extent) is None:
-        region.set_style(StyleProperties.Extent, initial_extent if initial_extent is not None \
-                         else StyleProperties.Extent.make_initial_value() )
+      if (region.get_style(StyleProperties.Position)) is not None:
+        # the position, if specified, overrides the origin
+        StyleProcessors.Position.compute(None, region)
+        region.set_style(StyleProperties.Position, None)
 
       # computer writing_mode and display_align
 
